@@ -120,9 +120,38 @@ type impStack struct {
 	dead  bool
 	api   *httpAPI
 	nhttp int
+	nunord int
 }
 
 var httpRoundTrips int
+
+// unorderedImport (C12, no model): the exported stream with two adjacent logs swapped (ids ... k+1, k ...) sent to a fourth,
+// pristine ledger. When log k arrives the ledger already holds k+1: its existing logs do not all precede the imported one, so
+// the import has to be refused; what it committed before the refusal is the stream's prefix, in id order.
+func (s *impStack) unorderedImport(data []byte, f Feat) (viol []string) {
+	logs, err := decodeLogs(data)
+	if err != nil || len(logs) < 3 || s.nunord > 0 {
+		return nil
+	}
+	s.nunord++
+	k := len(logs) / 2
+	logs[k], logs[k+1] = logs[k+1], logs[k]
+	must(s.st.Sys.CreateLedger(s.ctx, "l4", ledger.Configuration{Bucket: "_default", Features: f.set()}))
+	ctrl, err := s.st.Sys.GetLedgerController(s.ctx, "l4")
+	must(err)
+	ierr := realImport(s.ctx, ctrl, logs)
+	var ids []string
+	for _, r := range rawRows(s.st.PG, `select id from logs where ledger = 'l4' order by id`) {
+		ids = append(ids, r[0])
+	}
+	if ierr == nil {
+		return []string{fmt.Sprintf("an import stream whose ids step backwards (log %d sent after log %d) was accepted; the ledger now holds logs %v [c12-unordered-stream-accepted]", *logs[k+1].ID, *logs[k].ID, ids)}
+	}
+	if len(ids) > k+1 {
+		return []string{fmt.Sprintf("an import stream whose ids step backwards at position %d was refused (%v) but %d logs were stored: %v [c12-unordered-stream-stored]", k+1, ierr, len(ids), ids)}
+	}
+	return nil
+}
 
 // httpRoundTrip: export of l1 and import into a fresh ledger through the v2 endpoints (internal/api/v2/controllers_logs_*.go)
 func (s *impStack) httpRoundTrip(data []byte, copySnap Snap, f Feat) (viol []string) {
@@ -630,6 +659,9 @@ func (s *impStack) script(run *impRun, logs []ledger.Log) *impRun {
 					// body sent to POST /logs/import of a third, pristine ledger gives the state the controller-level import gave
 					for _, v := range s.httpRoundTrip(run.Data, after, c.Feat) {
 						run.Viol = append(run.Viol, "C11|"+v)
+					}
+					for _, v := range s.unorderedImport(run.Data, c.Feat) {
+						run.Viol = append(run.Viol, "C12|"+v)
 					}
 					for _, d := range refineDiff(run.SnapA, after, diff) {
 						run.Viol = append(run.Viol, "C11|copy differs from source after export/import into the pristine ledger: ["+"c11-"+d+"] "+impFirstDiff(run.SnapA, after, d))
